@@ -364,9 +364,11 @@ func solveGround(cfg *SolverCfg, query string) solverAnswer {
 		return solverAnswer{status: "error"}
 	}
 	defer os.Remove(file)
-	to := cfg.Full
-	if to < 3*time.Second {
-		to = 3 * time.Second
+	// generous: on the unchanged tree these queries take at most ~10 s on a loaded machine; a long limit only costs
+	// time when an obligation really fails
+	to := 2 * cfg.Full
+	if to < 45*time.Second {
+		to = 45 * time.Second
 	}
 	a := runSolver(context.Background(), "z3-new", file, to)
 	a.solver = "z3-new(ground instances)"
